@@ -759,6 +759,107 @@ func runC04(r *Run) {
 		}
 		r.Floor("R15", "address fields of staking messages built in precompiles/staking", nAddr, 9)
 	}
+	r.Rule("R17", "PATH/FLOW.token-precompile-acts-for-the-caller (precompiles/erc20, to which werc20 delegates): transfer() names the frame's caller as the sender; in the common transfer routine the bank Send that needs no grant is reachable only over the passing edge of <caller>.Equals(<from>) and every other move goes through authz DispatchActions with the caller as grantee (the SDK then demands a grant from `from`, accepts it for the amount and reduces it); approve / increaseAllowance / decreaseAllowance hand the frame's caller — never the origin, never a calldata address — to whatever saves or deletes a grant as the granter")
+	{
+		fromCaller := func(v ssa.Value) bool {
+			sl := backSlice(v)
+			return sl.HasField("Contract", "CallerAddress") || sl.HasCall(func(ci CallInfo) bool { return ci.Name == "Caller" && ci.Recv == "Contract" })
+		}
+		if tr, ok := P.FnOK("(precompiles/erc20.Precompile).transfer"); ok {
+			var sends, disp []ssa.CallInstruction
+			eachCall(tr, func(ci CallInfo) {
+				if ci.Name == "Send" && isCosmosEffect(ci) {
+					sends = append(sends, ci.Instr)
+				}
+				if ci.Name == "DispatchActions" {
+					disp = append(disp, ci.Instr)
+				}
+			})
+			var fromP ssa.Value
+			for _, p := range tr.Params {
+				if p.Name() == "from" {
+					fromP = p
+				}
+			}
+			pass, _ := guardPassEdges(tr, func(cond ssa.Value) (bool, bool) {
+				c, ok := cond.(*ssa.Call)
+				if !ok || callInfo(c).Name != "Equals" || len(c.Call.Args) != 2 || fromP == nil {
+					return false, false
+				}
+				a, b := c.Call.Args[0], c.Call.Args[1]
+				return true, (fromCaller(a) && backSlice(b).Has(fromP) && !fromCaller(b)) || (fromCaller(b) && backSlice(a).Has(fromP) && !fromCaller(a))
+			})
+			for i, sd := range sends {
+				sd := sd
+				w := PathQuery{Fn: tr, Target: func(x ssa.Instruction) bool { return x == ssa.Instruction(sd) }, DelEdge: edgeSet(pass)}.Search()
+				r.Check(w == nil && len(pass) > 0, "R17", fmt.Sprintf("%s#send-only-when-caller-is-the-owner-%d", fnID(tr), i+1), P.Pos(instrPos(sd)), "bank Send reachable only where the caller equals `from`",
+					"the ERC-20 precompile's transfer routine can run the grant-less bank Send for a `from` that is not the calling account: transferFrom(victim, attacker, x) needs no allowance", P.witness(w)...)
+			}
+			for i, d := range disp {
+				a := d.Common().Args
+				okG := false
+				for _, x := range a {
+					if namedName(x.Type()) == "AccAddress" && fromCaller(x) {
+						okG = true
+					}
+				}
+				r.Check(okG, "R17", fmt.Sprintf("%s#dispatch-grantee-is-the-caller-%d", fnID(tr), i+1), P.Pos(instrPos(d)), "DispatchActions' grantee derives from contract.CallerAddress",
+					"the authz dispatch of the ERC-20 precompile names a grantee that is not the calling account: the allowance of somebody else is spent")
+			}
+			r.Check(len(sends) >= 1 && len(disp) >= 1, "R17", fnID(tr)+"#both-routes-present", P.Pos(fnPos(tr)), "one grant-less route (owner) and one authz route", "the ERC-20 transfer routine no longer has its two routes (bank Send for the owner, authz dispatch for a spender): the analysis of who may move whose tokens is void")
+		} else {
+			r.Bad("R17", "anchor/erc20.transfer", "", "(precompiles/erc20.Precompile).transfer not found")
+		}
+		if tf, ok := P.FnOK("(precompiles/erc20.Precompile).Transfer"); ok {
+			okFrom, n := true, 0
+			eachCall(tf, func(ci CallInfo) {
+				if ci.Static == nil || ci.Static.Name() != "transfer" {
+					return
+				}
+				for i, p := range ci.Static.Params {
+					if p.Name() == "from" && i < len(ci.Instr.Common().Args) {
+						n++
+						if !fromCaller(ci.Instr.Common().Args[i]) {
+							okFrom = false
+						}
+					}
+				}
+			})
+			r.Check(okFrom && n >= 1, "R17", fnID(tf)+"#sender-is-the-caller", P.Pos(fnPos(tf)), "transfer() passes contract.CallerAddress as `from`", "ERC-20 transfer() does not name the calling account as the sender")
+		} else {
+			r.Bad("R17", "anchor/erc20.Transfer", "", "(precompiles/erc20.Precompile).Transfer not found")
+		}
+		nG := 0
+		for _, name := range []string{"Approve", "IncreaseAllowance", "DecreaseAllowance"} {
+			h, ok := P.FnOK("(precompiles/erc20.Precompile)." + name)
+			if !ok {
+				r.Bad("R17", "anchor/erc20."+name, "", "handler not found")
+				continue
+			}
+			bad, n := "", 0
+			eachCall(h, func(ci CallInfo) {
+				if ci.Static == nil || !strings.Contains(fnPkgPath(ci.Static), "/precompiles/") {
+					return
+				}
+				for i, p := range ci.Static.Params {
+					if p.Name() != "granter" {
+						continue
+					}
+					off := 0
+					if i < len(ci.Instr.Common().Args) {
+						n++
+						a := ci.Instr.Common().Args[i+off]
+						if !fromCaller(a) && bad == "" {
+							bad = ci.Name
+						}
+					}
+				}
+			})
+			nG += n
+			r.Check(bad == "" && n >= 1, "R17", fnID(h)+"#granter-is-the-caller", P.Pos(fnPos(h)), "every helper with a `granter` parameter receives contract.CallerAddress", "the ERC-20 "+name+" handler passes a granter that is not the calling account to "+bad+": an allowance is created or changed on somebody else's behalf")
+		}
+		r.Floor("R17", "granter arguments in erc20 allowance handlers", nG, 3)
+	}
 	r.Rule("R16", "see C05 R9 (imported): 'reduced by exactly the amount used' includes the failed spend — the grant update is written before the native message moves anything (authz DispatchActions, the precompiles' own UpdateGrant), so every precompile Run with Cosmos-side effects executes its methods on a CacheContext branch written only on success; otherwise a failed spend that the calling contract tolerates still consumes the allowance")
 	r.Import("R16/C05.", []string{"R9"}, runC05)
 }
